@@ -232,7 +232,8 @@ ADDED = {
     "C03": " Added: FINISHED survives the drain phase; the close decision is taken before the response body is dropped; a body decoder is installed for every request with a body.",
     "C04": " Added: the stored error is returned only after the error response was flushed and every dispatched request answered; the Poll of every dispatcher timer is examined (a discarded Ready of a timer armed with a past deadline was a lost wake-up: found and fixed).",
     "C05": " Added: the producer side updates the back-pressure flag.",
-    "C06": " Added: linger deadline not re-armed; draining still decodes the in-flight body; FINISHED (or a close) is marked at the end of every response body, so the keep-alive timer can be armed; timer polls are examined (shared with C04).",
+    "C06": " Added: linger deadline not re-armed; draining still decodes the in-flight body; FINISHED (or a close) is marked at the end of every response body, so the keep-alive timer can be armed; timer polls are examined (shared with C04); KeepAlive::Timeout always yields a deadline.",
+    "C07": " Added: the HTTP/2 request-body stream ends cleanly only on END_STREAM (no stream error becomes a clean end).",
     "C08": " Added: END_STREAM accounting of a computed flag; eof decided after the status adjustment; the reservation for the rest of a chunk is recomputed each round.",
     "C09": " Added: configure() keeps a builder's default service unless the configuration supplies one; Route builder steps hand back the receiver with its guards.",
     "C10": " Added: captured segments are looked up by name; build_resource_path appends static text and values verbatim.",
@@ -240,7 +241,7 @@ ADDED = {
     "C12": " Added: the bound compared is the configured limit itself (no path replaces it by a constant); the Readlines bound covers the line being assembled; an ignored multipart part is drained before the next one.",
     "C13": " Added: a handler-set Content-Length is removed when an encoder is installed (h2 copied it: found and fixed); the request decoder is put back after every data chunk; negotiate() answers only with a coding taken from an accepted item (q > 0) or with identity when acceptable, and a specific identity item wins over `*` (found and fixed).",
     "C14": " Added: the Upgrade token is compared case-insensitively; the extended length field carries payload.len() itself.",
-    "C15": " Added: a delimiter candidate at the head waits for enough bytes; the head check covers the scan's look-ahead; the scan resumes at the next byte.",
+    "C15": " Added: a delimiter candidate at the head waits for enough bytes; the head check covers the scan's look-ahead; the scan resumes at the next byte; every header line of a part is kept (append, not insert).",
     "C16": " Added: the segment checks run on the decoded path and the checked PathBuf is what is returned; 412 takes precedence over 304; a directory listing is produced only when enabled; the range size is the file length.",
     "C17": " Added: client codec per-exchange state (response `close` wins, HEAD flag and connection type recomputed per request, payload slot rewritten, no payload decoder for HEAD); chunked wins over Content-Length for responses; STREAM flag implies a payload decoder; the keep-alive flag given to on_release is the codec's; a failed h2 exchange returns the connection to the pool only when the error is neither I/O nor GOAWAY.",
     "C19": " Added: constant-bound slices (also of `str`, also `a..len-c`) need a dominating length test; STREAM flag never set with an empty payload slot (unwrap on None); quality floats accepted only across a true comparison (NaN refused); str truncation on a char boundary.",
